@@ -424,6 +424,12 @@ func (b *termBuilder) term(e ast.Expr) *Term {
 		for i, el := range x.Elts {
 			if kv, ok := el.(*ast.KeyValueExpr); ok {
 				name := types.ExprString(kv.Key)
+				// a constant key (map literal keyed by a named constant) is spelled by its value, like the literal it stands for
+				if tv, has := b.info.Types[kv.Key]; has && tv.Value != nil {
+					if _, isID := kv.Key.(*ast.BasicLit); !isID {
+						name = tv.Value.ExactString()
+					}
+				}
 				t.A = append(t.A, mk("kv", name, b.term(kv.Value)))
 			} else {
 				t.A = append(t.A, mk("kv", fmt.Sprint(i), b.term(el)))
